@@ -68,6 +68,12 @@ def handleLine (line : String) : String :=
     let s := PoolTimeout.trun o (sched.toList.map (· == 'c'))
     let pc := match s.pc with | .waiting => "waiting" | .first => "first" | .second => "second" | .raised => "raised"
     s!"{pc} {if s.lock then 1 else 0} {if s.closed then 1 else 0}"
+  | ["T2", cbj, cw, jn, late, sched] =>
+    -- the same with `joins` (the pool joins its worker) and `late` (the device answers after the timeout)
+    let o : PoolTimeout.TOpts := ⟨cbj == "1", cw == "1"⟩
+    let s := PoolTimeout.trun2 o (jn == "1") (late == "1") (sched.toList.map (· == 'c'))
+    let pc := match s.pc with | .waiting => "waiting" | .first => "first" | .second => "second" | .raised => "raised"
+    s!"{pc} {if s.lock then 1 else 0} {if s.closed then 1 else 0}"
   | _ => "bad-op"
 
 partial def loop (h : IO.FS.Stream) : IO Unit := do
